@@ -2585,9 +2585,26 @@ def _ghostdata_len(interp, d):
     return d.n
 
 
+class GhostDataView(GhostData):
+    """data[a:b] of ghost data with 0 <= a <= b <= len: b - a bytes, byte k = base byte a + k"""
+
+    def __init__(self, base, start, n):
+        self.name = f"{base.name}[{start}:+{n}]"
+        self.base, self.start, self.n = base, start, n
+
+    def byte_expr(self, k):
+        return self.base.byte_expr(iexpr(self.start) + k)
+
+
 def _ghostdata_getitem(interp, d, key):
     if isinstance(key, slice):
-        raise Unmodelled("slice of ghost data (use pointwise obligations)")
+        if key.step is not None or key.start is None or key.stop is None:
+            raise Unmodelled("slice form on ghost data")
+        a, b = iexpr(key.start), iexpr(key.stop)
+        if not interp.truth(SymBool(z3.And(a >= 0, a <= b, b <= iexpr(d.n)))):
+            raise Unmodelled("slice of ghost data outside 0 <= start <= stop <= len (python would clamp)")
+        ln = z3.simplify(b - a)
+        return GhostDataView(d, key.start, ln.as_long() if z3.is_int_value(ln) else SymInt(ln))
     ki = iexpr(key)
     if not interp.truth(SymBool(z3.And(ki >= 0, ki < iexpr(d.n)))):
         raise IndexError("index out of range")
@@ -2596,6 +2613,6 @@ def _ghostdata_getitem(interp, d, key):
     return SymInt(e) if not z3.is_int_value(e) else e.as_long()
 
 
-for _t in (GhostData, ConstData):
+for _t in (GhostData, ConstData, GhostDataView):
     DEFAULT_EXTERNALS[("len", _t)] = _ghostdata_len
     DEFAULT_EXTERNALS[("getitem", _t)] = _ghostdata_getitem
